@@ -90,12 +90,21 @@ fn in_dir(e: &Entry, d: &str) -> bool {
     e.dir == "universal" || e.dir == d
 }
 
-/// structural check of one emitted family; returns violations (key, detail)
+/// expected consequence (axiom form) of an outline lemma: its universal closure with the
+/// placeholders of the user guide replaced, as the outline stage documents it
+fn consequence(e: &Entry, placeholders: &indexmap::IndexMap<String, fol::FunctionConstant>) -> Option<fol::Formula> {
+    let af: fol::AnnotatedFormula = format!("{}: {}", e.role, e.body).parse().ok()?;
+    Some(af.replace_placeholders(placeholders).universal_closure_with_quantifier_joining().replace_placeholders(placeholders).formula)
+}
+
+/// structural check of one emitted family; formulas are identified by their content, not by
+/// their names. Returns violations (key, detail)
 fn check_family(
     o: &Outline,
     problems: &[Problem],
     plain: &[Problem],
     task_dir: &str,
+    placeholders: &indexmap::IndexMap<String, fol::FunctionConstant>,
 ) -> Vec<(String, Value)> {
     let mut out = vec![];
     for d in ["forward", "backward"] {
@@ -106,25 +115,19 @@ fn check_family(
             continue;
         }
         let lemmas: Vec<&(Entry, String)> = o.entries.iter().filter(|(e, _)| e.role != "definition" && in_dir(e, d)).collect();
-        let defs: Vec<&(Entry, String)> = o.entries.iter().filter(|(e, _)| e.role == "definition" && in_dir(e, d)).collect();
-        let other_lemmas: Vec<&(Entry, String)> = o.entries.iter().filter(|(e, _)| !in_dir(e, d)).collect();
-        // premises of this direction: every formula of the corresponding problems of the run
-        // without outline
-        let mut premises: Vec<(String, fol::Formula)> = vec![];
-        for p in plain.iter().filter(|p| p.name.starts_with(d)) {
-            for f in &p.formulas {
-                let k = (strip(&f.name), f.formula.clone());
-                if !premises.contains(&k) {
-                    premises.push(k);
-                }
-            }
-        }
-        let premise_axioms: Vec<(String, fol::Formula)> = plain
+        let defs: Vec<fol::Formula> = o
+            .entries
             .iter()
-            .filter(|p| p.name.starts_with(d))
-            .flat_map(|p| p.formulas.iter().filter(|f| f.role == Role::Axiom).map(|f| (strip(&f.name), f.formula.clone())))
+            .filter(|(e, _)| e.role == "definition" && in_dir(e, d))
+            .filter_map(|(e, _)| e.body.parse::<fol::Formula>().ok().map(|f| f.replace_placeholders(placeholders)))
             .collect();
-        let mut established: Vec<(String, usize)> = vec![]; // lemma name -> position of its last conjecture problem
+        let lemma_cons: Vec<Option<fol::Formula>> = lemmas.iter().map(|(e, _)| consequence(e, placeholders)).collect();
+        let other_cons: Vec<fol::Formula> = o.entries.iter().filter(|(e, _)| e.role != "definition" && !in_dir(e, d)).filter_map(|(e, _)| consequence(e, placeholders)).collect();
+        // premises of this direction: every formula of the corresponding problems of the run
+        // without outline (final problems), and its axioms (outline problems)
+        let premises_all: Vec<fol::Formula> = plain.iter().filter(|p| p.name.starts_with(d)).flat_map(|p| p.formulas.iter().map(|f| f.formula.clone())).collect();
+        let premises_ax: Vec<fol::Formula> = plain.iter().filter(|p| p.name.starts_with(d)).flat_map(|p| p.formulas.iter().filter(|f| f.role == Role::Axiom).map(|f| f.formula.clone())).collect();
+        let mut established: Vec<Option<usize>> = vec![None; lemmas.len()];
         let mut last_outline_pos = None;
         let mut first_final_pos = None;
         for (pos, p) in problems.iter().enumerate() {
@@ -134,72 +137,65 @@ fn check_family(
             let conj: Vec<&anthem::verif::AnnotatedFormula> = p.formulas.iter().filter(|f| f.role == Role::Conjecture).collect();
             let axioms: Vec<&anthem::verif::AnnotatedFormula> = p.formulas.iter().filter(|f| f.role == Role::Axiom).collect();
             let is_outline = p.name.contains("_outline_");
-            let mut allowed_lemma_names: Vec<String> = vec![];
+            let usable: usize; // lemmas with index < usable may appear as axioms
             if is_outline {
                 last_outline_pos = Some(pos);
                 let parts: Vec<&str> = p.name.split('_').collect();
-                let (i, j): (usize, usize) = (parts[2].parse().unwrap_or(999), parts[3].parse().unwrap_or(999));
+                let (i, j): (usize, usize) = (parts.get(2).and_then(|x| x.parse().ok()).unwrap_or(999), parts.get(3).and_then(|x| x.parse().ok()).unwrap_or(999));
                 if i >= lemmas.len() {
                     out.push((format!("unexpected_outline_problem|{d}"), json!({"problem": p.name})));
                     continue;
                 }
-                let (le, lname) = lemmas[i];
-                let want = if le.role == "lemma" { lname.clone() } else if j == 0 { format!("{lname}base_case") } else { format!("{lname}inductive_step") };
-                if conj.len() != 1 || strip(&conj[0].name) != want {
-                    out.push((format!("wrong_conjecture|{d}"), json!({"problem": p.name, "expected": want, "found": conj.iter().map(|c| c.name.clone()).collect::<Vec<_>>()})));
+                let (le, _) = lemmas[i];
+                if conj.len() != 1 {
+                    out.push((format!("wrong_conjecture|{d}"), json!({"problem": p.name, "conjectures": conj.len()})));
+                } else if le.role == "lemma" {
+                    // a plain lemma is established by proving exactly its closure
+                    if Some(&conj[0].formula) != lemma_cons[i].as_ref() {
+                        out.push((format!("wrong_conjecture|{d}"), json!({"problem": p.name, "expected": lemma_cons[i].as_ref().map(|f| f.to_string()), "found": conj[0].formula.to_string()})));
+                    }
+                    if j != 0 {
+                        out.push((format!("unexpected_outline_problem|{d}"), json!({"problem": p.name})));
+                    }
+                } else if j > 1 {
+                    out.push((format!("unexpected_outline_problem|{d}"), json!({"problem": p.name})));
                 }
-                established.retain(|(n, _)| n != lname);
-                established.push((lname.clone(), pos));
-                for (_, n) in lemmas.iter().take(i) {
-                    allowed_lemma_names.push(n.clone());
-                }
+                established[i] = Some(pos);
+                usable = i;
             } else {
                 if first_final_pos.is_none() {
                     first_final_pos = Some(pos);
                 }
-                for (_, n) in &lemmas {
-                    allowed_lemma_names.push(n.clone());
-                }
+                usable = lemmas.len();
             }
             for a in &axioms {
-                let n = strip(&a.name);
-                // (1) a premise of this direction (same name and same formula)
-                if premises.iter().any(|(pn, pf)| *pn == n && *pf == a.formula) && (!is_outline || premise_axioms.iter().any(|(pn, pf)| *pn == n && *pf == a.formula)) {
+                let f = &a.formula;
+                if (if is_outline { &premises_ax } else { &premises_all }).contains(f) {
                     continue;
                 }
-                // (2) an accepted definition of this direction (outline problems only)
-                if is_outline && defs.iter().any(|(_, dn)| *dn == n) {
+                if is_outline && defs.contains(f) {
                     continue;
                 }
-                // (3) a lemma established earlier
-                if allowed_lemma_names.contains(&n) {
-                    match established.iter().find(|(ln, _)| *ln == n) {
-                        Some((_, epos)) if *epos < pos => continue,
+                if let Some(k) = (0..usable).find(|k| lemma_cons[*k].as_ref() == Some(f)) {
+                    match established[k] {
+                        Some(epos) if epos < pos => continue,
                         _ => {
-                            out.push((format!("lemma_before_established|{d}"), json!({"problem": p.name, "lemma": n, "kind": "lemma used as an axiom before (or without) the problems that establish it"})));
+                            out.push((format!("lemma_before_established|{d}"), json!({"problem": p.name, "lemma": lemmas[k].1, "kind": "lemma used as an axiom before (or without) the problems that establish it"})));
                             continue;
                         }
                     }
                 }
-                let leak = other_lemmas.iter().any(|(_, on)| *on == n);
+                let class = if other_cons.contains(f) {
+                    "opposite_direction_leak"
+                } else if lemma_cons.iter().any(|c| c.as_ref() == Some(f)) || o.entries.iter().any(|(e, _)| e.body.parse::<fol::Formula>().ok().as_ref() == Some(f)) {
+                    "outline_entry_not_yet_available"
+                } else {
+                    "unjustified_axiom"
+                };
                 out.push((
-                    format!("{}|{d}", if leak { "opposite_direction_leak" } else if o.entries.iter().any(|(_, en)| *en == n) { "outline_entry_not_yet_available" } else { "unjustified_axiom" }),
-                    json!({"problem": p.name, "axiom": a.name, "formula": a.formula.to_string(), "kind": "axiom is neither a premise of this direction, nor an accepted definition, nor a lemma established earlier"}),
+                    format!("{class}|{d}"),
+                    json!({"problem": p.name, "axiom": a.name, "formula": f.to_string(), "kind": "axiom is neither a premise of this direction, nor an accepted definition, nor a lemma established earlier"}),
                 ));
-            }
-            // a plain lemma used as an axiom must be the formula that was proven
-            for a in &axioms {
-                let n = strip(&a.name);
-                if let Some((le, _)) = lemmas.iter().find(|(_, ln)| *ln == n) {
-                    if le.role == "lemma" {
-                        let proven = problems.iter().take(pos).filter(|q| q.name.starts_with(d)).flat_map(|q| q.formulas.iter()).find(|f| f.role == Role::Conjecture && strip(&f.name) == n);
-                        if let Some(pr) = proven {
-                            if pr.formula != a.formula {
-                                out.push((format!("lemma_axiom_differs_from_conjecture|{d}"), json!({"problem": p.name, "lemma": n, "axiom": a.formula.to_string(), "proven": pr.formula.to_string()})));
-                            }
-                        }
-                    }
-                }
             }
         }
         if let (Some(lo), Some(ff)) = (last_outline_pos, first_final_pos) {
@@ -448,7 +444,12 @@ pub fn run(run: &Run) {
                                 json!({"kind": "outline with an invalid definition was accepted", "why": why, "item": desc}),
                             );
                         }
-                        for (k, v) in check_family(&o, &ps, plain, d) {
+                        let placeholders: indexmap::IndexMap<String, fol::FunctionConstant> = t2
+                            .ug
+                            .parse::<fol::UserGuide>()
+                            .map(|u| u.placeholders().into_iter().map(|p| (p.name.clone(), p)).collect())
+                            .unwrap_or_default();
+                        for (k, v) in check_family(&o, &ps, plain, d, &placeholders) {
                             run.violation(k, json!({"item": desc, "detail": v}));
                         }
                         // semantic check of inductive lemmas (once per outline/task)
@@ -457,8 +458,11 @@ pub fn run(run: &Run) {
                                 if e.role != "inductive-lemma" {
                                     continue;
                                 }
-                                let find = |suffix: &str| ps.iter().flat_map(|p| p.formulas.iter()).find(|f| f.role == Role::Conjecture && strip(&f.name) == format!("{name}{suffix}")).map(|f| f.formula.clone());
-                                if let (Some(b), Some(s)) = (find("base_case"), find("inductive_step")) {
+                                // the obligations of the i-th lemma of a direction are <dir>_outline_<i>_0 (base) and _1 (step)
+                                let dirn = if e.dir == "backward" { "backward" } else { "forward" };
+                                let li = o.entries.iter().filter(|(x, _)| x.role != "definition" && in_dir(x, dirn)).position(|(_, n)| n == name);
+                                let find = |j: usize| li.and_then(|i| ps.iter().find(|p| p.name == format!("{dirn}_outline_{i}_{j}"))).and_then(|p| p.formulas.iter().find(|f| f.role == Role::Conjecture).map(|f| f.formula.clone()));
+                                if let (Some(b), Some(s)) = (find(0), find(1)) {
                                     run.valid(1);
                                     if let Some(dv) = check_induction(run, e.body, &b, &s) {
                                         run.violation(format!("induction_obligation|{}", e.body), json!({"item": desc, "lemma": e.body, "detail": dv}));
